@@ -17,7 +17,7 @@ THEOREMS = ["C13_gate_sound", "C13_auth_sound", "C13_gate_unix_sound", "C13_gate
             "C13_can_read_spec", "C13_can_write_spec", "C13_revoke_key_next", "C13_revoke_perm_next",
             "C13_reserved_id_rejected", "C13_no_reserved_account", "C13_gate_never_reserved",
             "C13_gate_unix_never_reserved", "C13_gate_http_never_reserved", "C13_no_identity_commands",
-            "C13_authorized_only_refuted", "C13_outside_known", "C13_served_outside_known",
+            "C13_authorized_only_refuted", "C13_outside_known", "C13_read_commands_checked", "C13_served_outside_known",
             "C13_served_unix_outside_known", "C13_served_http_outside_known", "C13_grant_many_eq_fold",
             "C13_revoke_many_eq_fold", "C13_dispatch_grant_many", "C13_grant_many_entry", "C13_revoke_many_entry"]
 RULE = ("histories of probe lines against one engine process each (auth ON): (a) the full role-set x "
@@ -50,7 +50,7 @@ TRUSTED = [
 
 CLAIMED = True
 MANIFEST = {
- "level_text": "Theorems over the model (all stores, lines, users, no bound): the TCP/unix/HTTP gates dispatch only on hmac(key,msg) of an active user for the right message or a live token of an active user; can_read/can_write are equivalent to a declarative RBAC statement; key and permission revocation hold for the next request; the reserved ids cannot be created, exist in no reachable state and are never the identity a gate hands on (repaired by 139a8cf); the main statement is refuted with three witnesses (identity-less REPLAY/SHOW/REMEMBER/comparison, FLUSH, unchecked sequence tail) and proved outside those classes for every user id, end to end through the TCP, unix and HTTP gates. The handler flags and constants of the model are regenerated from the Rust text; the model is run against the real AuthManager, gates (loopback TCP/HTTP, unix Connection) and dispatcher.",
+ "level_text": "Theorems over the model (all stores, lines, users, no bound): the TCP/unix/HTTP gates dispatch only on hmac(key,msg) of an active user for the right message or a live token of an active user; can_read/can_write are equivalent to a declarative RBAC statement; key and permission revocation hold for the next request; the reserved ids cannot be created, exist in no reachable state and are never the identity a gate hands on (repaired by 139a8cf); REPLAY, REMEMBER, comparison and sequence queries check read permission for every event type they read (repaired by d146031, 8e7945c, 20fee3f, 79dcefb); the main statement is refuted with two witnesses (SHOW, FLUSH: still dispatched without identity) and proved outside those two command kinds for every user id, end to end through the TCP, unix and HTTP gates. The handler flags and constants of the model are regenerated from the Rust text; the model is run against the real AuthManager, gates (loopback TCP/HTTP, unix Connection) and dispatcher.",
  "design_ref": "DESIGN.md §6 C13",
  "level_note": "Trusted: Coq kernel; p30_auth.py; extraction + p_auth.ml (incl. its HMAC-SHA256); the Rust harness; the Python policy oracle. HMAC and the parser are uninterpreted; Unicode ids/whitespace, rate limiting and the WebSocket fast path are not modelled; check_auth is reached through a loopback socket until hooks/C13-check-auth.diff is applied."
 }
@@ -510,6 +510,19 @@ def gen_engine(rng, tier, idx):
             ks = [k for k in ks if rng.chance(2, 3)]
         for desc, text in ks:
             h.cmd(u, desc, text)
+    # d146031: REPLAY needs READ on the named type, whole-context REPLAY on EVERY defined type
+    h.cmd(ADMIN, d_mku("pall", "key-pall", None), 'CREATE USER pall WITH KEY "key-pall"')
+    h.cmd(ADMIN, d_gr(1, 0, types, "pall"), f"GRANT READ ON {', '.join(types)} TO pall")
+    h.cmd("pra", d_rp(None, types), "REPLAY FOR c1", expect="403", note="READ on ta only: whole-context REPLAY")
+    h.cmd("pra", d_rp("ta", types), "REPLAY ta FOR c1", expect="200", note="READ on ta only: REPLAY ta")
+    h.cmd("pra", d_rp("tb", types), "REPLAY tb FOR c1", expect="403", note="READ on ta only: REPLAY tb")
+    h.cmd(ADMIN, d_def(f"tnew{idx}"), f'DEFINE tnew{idx} FIELDS {{ k: "int" }}')
+    h.cmd("pall", d_rp(None, types), "REPLAY FOR c1", expect="403",
+          note="READ on ta, tb, tc, but tnew is a defined event type too")
+    for t in types:
+        h.cmd("pall", d_rp(t, types), f"REPLAY {t} FOR c1", expect="200", note="READ on the named type")
+    h.cmd("rdr", d_rp(None, types), "REPLAY FOR c1", expect="200", note="read-only role: whole-context REPLAY")
+    h.cmd(None, d_rp("ta", types), "REPLAY ta FOR c1", expect="401", note="no identity")
     # grant / revoke sequences: the next request sees the change
     for rd in range(6 if tier == "quick" else 60):
         u = rng.choice(["nor", "rdr", "wro", "edt", "pra", "pwa", "prw", "mix", "vwr"])
@@ -1099,6 +1112,8 @@ def judge_history(full, outs):
             why = f"probe did not answer: {out}"
         elif op == "cmd":
             why = judge_command(pol, c.get("who"), c["desc"], st, out, injected=True)
+            if why is None and c.get("expect") and st != c["expect"]:
+                why = f"expected status {c['expect']} ({c.get('note')}), got {st}"
             if why is None and c["desc"].startswith("shp:") and st == "200" and perms_of(out) is not None:
                 tu = parse_desc(c["desc"])[1]["u"]
                 if tu in pol.users:
@@ -1183,12 +1198,12 @@ def classify(c, impl_out):
     else:
         return None
     kind, a = parse_desc(c.get("desc", "bad"))
-    if kind in ("rp", "show", "rem", "cmp"):
-        return "UncheckedReadCommand"
+    # REPLAY / REMEMBER / comparison / sequence leaks are repaired (d146031, 8e7945c, 20fee3f, 79dcefb):
+    # only SHOW and FLUSH are still known, anything else is a VIOLATION again
+    if kind == "show":
+        return "UncheckedShow"
     if kind == "flush":
         return "FlushNoRole"
-    if kind == "q" and a.get("tail"):
-        return "SequenceTailUnchecked"
     return None
 
 
